@@ -159,6 +159,14 @@ Definition check_load (c : fmt * list zline * option zraw * option (option strin
   | _, _ => true
   end.
 
+(* load(path, dim=d) of these lines built an object of class k *)
+Definition check_load_dim (c : fmt * list zline * Z * string) : bool :=
+  let '(f, ls, d, k) := c in
+  match parse_fmt f ls with
+  | Some x => ostr_eqb (class_of_loaded_dim (Some d) x) (Some k)
+  | None => false
+  end.
+
 (* the model's own round trip on this input, evaluated: parse (print m) = vocab m (a test, the theorems are in Props.v) *)
 Definition check_roundtrip (c : fmt * switches * zmesh) : bool :=
   let '(f, sw, m) := c in
